@@ -146,9 +146,12 @@ theorem ref_skipK : ∀ (ws : List PToken) (f : Frame) (stack : List Frame) (pos
 /-- what the reference parser remembers after a binary operator: `optOp` for `,` and infix identifiers -/
 def lastAfter (s : SecDef) : Last := if s == .optionalBinaryLeftToRight then .optOp else .op
 
-theorem lastAfter_open (s : SecDef) : lastAfter s = .op ∨ lastAfter s = .start ∨ lastAfter s = .optOp := by
+/-- the reference parser expects an operand -/
+def OpenLast (l : Last) : Prop := l = .op ∨ l = .start ∨ l = .optOp ∨ l = .sep
+
+theorem lastAfter_open (s : SecDef) : OpenLast (lastAfter s) := by
   unfold lastAfter; split
-  · exact Or.inr (Or.inr rfl)
+  · exact Or.inr (Or.inr (Or.inl rfl))
   · exact Or.inl rfl
 
 theorem ref_op_stepK (f : Frame) (stack : List Frame) (pos q : Nat) (o : PToken) (rest : List PToken)
@@ -185,7 +188,7 @@ theorem ref_suffix_stepK (f : Frame) (stack : List Frame) (pos q : Nat) (s : PTo
   rcases hl with hl | hl <;> simp [hpr, hq, hl] <;> rfl
 
 theorem ref_prefix_stepK (g : Frame) (stack : List Frame) (pos : Nat) (p : PToken) (rest : List PToken)
-    (hp : isPrefixTok p = true) (hg : g.last = .op ∨ g.last = .start ∨ g.last = .optOp) :
+    (hp : isPrefixTok p = true) (hg : OpenLast g.last) :
     refStep Table.gen g stack pos p rest =
       .ok ({ g with cur := plug g.cur (.node .nil (getDefinition p.type).1 pos .nil), last := .op, ws := false,
                     prevSep := false }, stack) := by
@@ -197,11 +200,11 @@ theorem ref_prefix_stepK (g : Frame) (stack : List Frame) (pos : Nat) (p : PToke
   obtain ⟨d, s⟩ := ds
   simp only at hs ⊢
   subst hs
-  rcases hg with hg | hg | hg <;> simp [beforeOperand, hg, Outcome.bind]
+  rcases hg with hg | hg | hg | hg <;> simp [beforeOperand, hg, Outcome.bind]
 
 theorem ref_prefix_runK : ∀ (ps : List PToken) (g : Frame) (stack : List Frame) (pos : Nat) (rest : List PToken),
-    (∀ p ∈ ps, isPrefixTok p = true) → (g.last = .op ∨ g.last = .start ∨ g.last = .optOp) →
-    ∃ b b2 l, (l = .op ∨ l = .start ∨ l = .optOp) ∧ refLoop Table.gen g stack pos (ps ++ rest) =
+    (∀ p ∈ ps, isPrefixTok p = true) → OpenLast g.last →
+    ∃ b b2 l, OpenLast l ∧ refLoop Table.gen g stack pos (ps ++ rest) =
       refLoop Table.gen { g with cur := plugLeaves g.cur (leavesP ps pos), last := l, ws := b, prevSep := b2 } stack
         (pos + ps.length) rest := by
   intro ps
@@ -223,7 +226,7 @@ theorem ref_prefix_runK : ∀ (ps : List PToken) (g : Frame) (stack : List Frame
     rw [this]
 
 theorem ref_atom_stepK (g : Frame) (stack : List Frame) (pos : Nat) (a : PToken) (rest : List PToken)
-    (ha : isAtom10 a = true) (hg : g.last = .op ∨ g.last = .start ∨ g.last = .optOp) :
+    (ha : isAtom10 a = true) (hg : OpenLast g.last) :
     refStep Table.gen g stack pos a rest =
       .ok ({ g with cur := plug g.cur (.node .nil (getDefinition a.type).1 pos .nil), last := .operand, ws := false,
                     prevSep := false }, stack) := by
@@ -235,10 +238,10 @@ theorem ref_atom_stepK (g : Frame) (stack : List Frame) (pos : Nat) (a : PToken)
   generalize getDefinition a.type = ds at hsa hns ⊢
   obtain ⟨d, s⟩ := ds
   simp only at hsa hns ⊢
-  rcases hg with hg | hg | hg <;> rcases hsa with rfl | rfl <;> simp [hns, beforeOperand, hg, Outcome.bind]
+  rcases hg with hg | hg | hg | hg <;> rcases hsa with rfl | rfl <;> simp [hns, beforeOperand, hg, Outcome.bind]
 
 theorem ref_open_stepK (g : Frame) (stack : List Frame) (pos : Nat) (o : PToken) (rest : List PToken)
-    (ho : isOpenTok o = true) (hg : g.last = .op ∨ g.last = .start ∨ g.last = .optOp) :
+    (ho : isOpenTok o = true) (hg : OpenLast g.last) :
     refStep Table.gen g stack pos o rest =
       .ok ({ ctx := some ((getDefinition o.type).1, pos), cur := .nil, last := .start, ws := false,
              prevSep := (getDefinition o.type).1 == .nestedExpression }, { g with ws := false } :: stack) := by
@@ -250,7 +253,7 @@ theorem ref_open_stepK (g : Frame) (stack : List Frame) (pos : Nat) (o : PToken)
   obtain ⟨d, s⟩ := ds
   simp only at hs ⊢
   subst hs
-  rcases hg with hg | hg | hg <;> simp [beforeOperand, hg, Outcome.bind]
+  rcases hg with hg | hg | hg | hg <;> simp [beforeOperand, hg, Outcome.bind]
 
 def isCloseFor (d : Definition) (c : PToken) : Prop :=
   (d = .group ∧ c.type = .endGroup) ∨ (d = .nestedExpression ∧ c.type = .endExpression)
